@@ -52,6 +52,17 @@ def main():
                 res = {"ok": o["ok"], "err": o["err"], "errmsg": o["errmsg"], "stdout": o["stdout"],
                        "log": o["log"] if job.get("want_log") else None, "log_len": len(o["log"]),
                        "globals": o["globals"], "used": o["used"]}
+            elif op == "check":
+                # whole-program oracle inside this interpreter (host == runtime == this one)
+                import os
+                os.environ["OL_REPO"] = job["repo"]
+                from olverif import oracle
+                status, failures, orig = oracle.check_program(
+                    job["src"], [tuple(c) for c in job["cfgs"]], job.get("sched", 0), job.get("seed", 0),
+                    check_globals=job.get("check_globals", True), check_log=job.get("check_log", True),
+                    check_stdout=job.get("check_stdout", True))
+                res = {"ok": True, "status": status, "orig_err": orig.get("err"),
+                       "failures": [[list(c), d] for (c, d, t) in failures]}
             elif op == "compile":
                 try:
                     compile(job["text"], "<w>", job.get("mode", "exec"))
